@@ -606,6 +606,9 @@ def gen_plform(rng, uniq):
     if form == "L":
         if ids is not None and rng.integers(4) == 0 and len(ids) > 1:
             ids = ids[:-1] if rng.integers(2) else ids + [max(ids) + 5]      # zip truncation
+        for j, ph in enumerate(phases):
+            if ph[0] == "not_indexed" and (ids is None or j >= len(ids) or ids[j] != -1):
+                ph[0] = "nidx"
         return {"form": "L", "phases": phases, "ids": ids}, f"list/{rel}/{idk}"
     if form == "D":
         ids2 = ids if ids is not None else list(range(m))
@@ -628,6 +631,10 @@ def gen_plform(rng, uniq):
     kid = None if ids is None else (ids[:max(1, len(ids) - int(rng.integers(0, 2)))] if ids else None)
     if names is None and pgs is None and sgs is None and tags is None and kid is None:
         names = ["p"]
+    if names is not None:
+        # keep the caller's list well formed: only the phase with id -1 may be called not_indexed
+        names = [("nidx" if nm == "not_indexed" and (kid is None or j >= len(kid) or kid[j] != -1) else nm)
+                 for j, nm in enumerate(names)]
     return {"form": "K", "names": names, "sgs": sgs, "pgs": pgs, "ids": kid, "tags": tags}, f"keywords/{rel}/{idk}"
 
 
@@ -826,7 +833,7 @@ def generate(ctx):
         c = {"entries": es, "keys": keys}
         ctx.count("phaselist_getitem", ("pg", repr(es), repr(keys)))
         yield "phaselist_getitem", c
-    for i in range(40 if quick else 300):
+    for i in range(120 if quick else 600):
         n = int(rng.integers(2, 9))
         sel = G.gen_mask(rng, n, 0.5)
         if not any(sel):
